@@ -480,6 +480,53 @@ harness!(quantizer_u8_p4_sup3, unwind = 12, |s| {
     assert!(k == 3);
 });
 
+// C19: LeakyQuantizer::new accepts only supports with at least two symbols (all u8 / i8 pairs)
+harness!(quantizer_new_rejects_u8, unwind = 4, |s| {
+    let a = s.u8();
+    let b = s.u8();
+    s.assume(a >= b); // empty or single-element support
+    let _q = LeakyQuantizer::<f64, u8, u32, 24>::new(a..=b); // must panic for every such support
+    assert!(false);
+});
+harness!(quantizer_new_rejects_i8, unwind = 4, |s| {
+    let a = s.u8() as i8;
+    let b = s.u8() as i8;
+    s.assume(a >= b);
+    let _q = LeakyQuantizer::<f64, i8, u32, 24>::new(a..=b);
+    assert!(false);
+});
+// ... and a support wider than 2^PRECISION symbols is refused too
+harness!(quantizer_new_rejects_too_wide, unwind = 4, |s| {
+    let a = s.u8();
+    let b = s.u8();
+    s.assume(b > a && (b - a) as u16 + 1 > 16);
+    let _q = LeakyQuantizer::<f64, u8, u8, 4>::new(a..=b);
+    assert!(false);
+});
+
+// C03 at a precision close to the f32 mantissa: valid f32 tables must give valid models at u32 / P = 24
+harness!(fast_f32_n3_p24_u32, unwind = 7, |s| {
+    let probs: [f32; 3] = [s.f32(), s.f32(), s.f32()];
+    s.assume(probs[0] >= 0.0 && probs[1] >= 0.0 && probs[2] >= 0.0);
+    s.assume(probs[0].is_finite() && probs[1].is_finite() && probs[2].is_finite());
+    let r = ContiguousCategoricalEntropyModel::<u32, Vec<u32>, 24>::from_floating_point_probabilities_fast(&probs, None);
+    if let Ok(m) = r {
+        let total: u64 = 1 << 24;
+        let mut acc: u64 = 0;
+        let mut i = 0;
+        while i < 3 {
+            let (c, p) = m.left_cumulative_and_probability(i).unwrap();
+            assert!(c as u64 == acc);
+            assert!(p.get() != 0 && (p.get() as u64) < total);
+            acc += p.get() as u64;
+            i += 1;
+        }
+        assert!(acc == total);
+        core::mem::forget(m);
+    }
+    vcover!(probs[1] == 0.0 && probs[0] > 0.0);
+});
+
 // C09: symbols far outside the support, whose value aliases an in-support symbol after narrowing to the
 // (narrower) probability type, must be refused by the quantised model
 harness!(quantizer_wide_symbol_none, unwind = 6, |s| {
@@ -515,6 +562,7 @@ impl Distribution for TableDistI16 {
 }
 
 dispatch!(
+    quantizer_new_rejects_u8, quantizer_new_rejects_i8, quantizer_new_rejects_too_wide, fast_f32_n3_p24_u32,
     fast_f32_n2_p3_unrestricted,
     quantizer_wide_symbol_none,
     lazy_f32_n3_p4_valid,
